@@ -16,8 +16,24 @@ import Acpi.Tables.Wf
 import Acpi.Spec.Walk
 import Acpi.Spec.Codes
 import Acpi.Spec.Layout
+import Acpi.Spec.FixedLayout
 namespace Drv
 open Acpi
+
+/-- first index at which two byte strings differ -/
+def firstDiffAt (a b : Bytes) : Nat :=
+  let rec go : Bytes → Bytes → Nat → Nat
+    | x :: xs, y :: ys, i => if x = y then go xs ys (i + 1) else i
+    | _, _, i => i
+  go a b 0
+
+/-- which properties a difference at byte `off` of an entry of kind `k` built with `opts` speaks
+    about: an HMAT locality structure's fixed part (incl. its flag byte) is C04/C11, its
+    initiator/target lists and matrix are C04/C12 -/
+def entryTag (k : Kind) (opts : List Opt) (off : Nat) : String :=
+  if opts.isEmpty then "C04"
+  else if k = .loc then (if off < 32 then "C04,C11" else "C04,C12")
+  else "C04,C11"
 
 def kindOfString (s : String) : Option Kind :=
   match s with
@@ -141,6 +157,19 @@ def headFails (tname : String) (i : Nat) (m impl : Bytes) (cw cntOff : Nat) : Li
     fs := ⟨"corr", "C04", "head-constants", s!"{tname} op#{i}: model {bytesToHex m} impl {bytesToHex impl}"⟩ :: fs
   return fs
 
+/-- C04 on the part of a table that precedes its entries: header constants, OEM fields, the
+    table's own fixed fields (e.g. the SRAT's must-be-one dword, array offsets), count -/
+def headLayoutFails (tname : String) (i : Nat) (oem : Oem) (ctor : List Nat) (h : Bytes) (count : Nat) : List Fail :=
+  let len := (readAt h 4 4).getD 0
+  let rev := (h.getD 8 0).toNat
+  let cks := (h.getD 9 0).toNat
+  match Spec.tableHeadRows tname oem ctor len rev cks count with
+  | none => []
+  | some (total, rows) =>
+    match Spec.conforms total rows h with
+    | some e => [⟨"prop", "C04", "table-head-layout", s!"{tname} op#{i}: {e}"⟩]
+    | none => []
+
 /-- per-entry sub-count oracles (C03, second sentence): element counts, array offsets, string
     lengths inside one entry equal what its own length implies -/
 def entryCountsOracle (k : Kind) (raw : Bytes) : Option String :=
@@ -199,7 +228,11 @@ def checkTbl (case impl : List String) : List Fail := Id.run do
     let some ops := opToks.mapM parseOpTok | return bad "op token"
     let cntOff := 36 + cfg.pre.length
     let mut fails : List Fail := []
-    let mut t := Tbl.new cfg ⟨oid, otab, orev⟩
+    -- (the offset limit of VIOT is decided by `tOff` below, never by the Length-fed copy)
+    let mut t := Tbl.new { cfg with maxOffset := none } ⟨oid, otab, orev⟩
+    -- a second copy of the engine in which every entry claims exactly its serialised size: the
+    -- reference for handle values (the code advances its offset and its Length separately)
+    let mut tOff := Tbl.new cfg ⟨oid, otab, orev⟩
     let mut prevLenField : Nat := 0
     let mut added : Array (Nat × Bytes) := #[]     -- (spec type code, raw) of the entries added
     let mut bodyLen : Nat := 0
@@ -218,6 +251,7 @@ def checkTbl (case impl : List String) : List Fail := Id.run do
         if s ≠ 0 then fails := fails ++ [⟨"prop", "C01", "sum-nonzero", s!"{tname} after new: image sums to {s}"⟩]
         if prevLenField ≠ l then fails := fails ++ [⟨"prop", "C02", "length-field", s!"{tname} after new: Length {prevLenField}, image {l} bytes"⟩]
         if b ≠ fnvInit.toNat ∨ l ≠ h.length then fails := fails ++ [⟨"prop", "C03", "body-not-empty", s!"{tname} after new"⟩]
+        fails := fails ++ headLayoutFails tname 0 ⟨oid, otab, orev⟩ ctor h 0
       | none => fails := fails ++ bad "first observation must be full"
     | none => return [⟨"corr", "C01,C02,C03,C04,C05", "new-panics", tname⟩]
     if obs.length ≠ ops.length + 1 ∧ ¬ (obs.any Option.isNone) then return bad s!"{ops.length} ops but {obs.length} observations"
@@ -229,32 +263,33 @@ def checkTbl (case impl : List String) : List Fail := Id.run do
       -- full model of the entry
       let built := buildEntry op.kind op.ctor op.opts
       let dupImsic : Bool := tname = "madt" && op.kind = .imsic && hasImsic
-      let optTag := if op.opts.isEmpty then "C04" else if op.kind = .loc then "C04,C11,C12" else "C04,C11"
+      let optTag := if op.opts.isEmpty then "C04" else if op.kind = .loc then "C04,C12" else "C04,C11"
       match ob with
       | none =>
         ended := true
         -- implementation panicked on this op
         let engineRefuses : Bool := match built with
-          | .ok a => (t.add [] (lenOf op.kind a) 0).isNone
+          | .ok a => (tOff.add [] (lenOf op.kind a) 0).isNone
           | .error _ => false
         match built with
         | .error _ => pure ()
         | .ok _ =>
           if !dupImsic && !engineRefuses then
-            fails := fails ++ [⟨"corr", optTag ++ ",C18", "unexpected-panic", s!"{tname} op#{i} {op.kindName}: impl panics, model emits"⟩]
+            fails := fails ++ [⟨"corr", optTag, "unexpected-panic", s!"{tname} op#{i} {op.kindName}: impl panics, model emits"⟩]
       | some o =>
         -- (a) full mode: entry bytes from arguments
         match built with
         | .error e =>
-          fails := fails ++ [⟨"corr", optTag ++ ",C18", "missing-panic", s!"{tname} op#{i} {op.kindName}: model panics ({e}), impl emits {bytesToHex o.raw}"⟩]
+          fails := fails ++ [⟨"corr", (if e = "refused" then optTag ++ ",C18" else optTag), "missing-panic", s!"{tname} op#{i} {op.kindName}: model panics ({e}), impl emits {bytesToHex o.raw}"⟩]
           if e = "refused" then
             fails := fails ++ [⟨"prop", "C18", "not-refused", s!"{tname} op#{i} {op.kindName}: an oversized count/size was serialised"⟩]
         | .ok a =>
           let mraw := encFields (fields op.kind a)
+          let dtag := entryTag op.kind op.opts (firstDiffAt mraw o.raw)
           if mraw ≠ o.raw then
-            fails := fails ++ [⟨"corr", optTag, "entry-bytes", s!"{tname} op#{i} {op.kindName}: model {bytesToHex mraw} impl {bytesToHex o.raw}"⟩]
+            fails := fails ++ [⟨"corr", dtag, "entry-bytes", s!"{tname} op#{i} {op.kindName}: model {bytesToHex mraw} impl {bytesToHex o.raw}"⟩]
           match Spec.layoutOracle op.kind op.ctor op.opts o.raw with
-          | some e => fails := fails ++ [⟨"prop", optTag, "layout", s!"{tname} op#{i} {op.kindName}: {e}"⟩]
+          | some e => fails := fails ++ [⟨"prop", dtag, "layout", s!"{tname} op#{i} {op.kindName}: {e}"⟩]
           | none => pure ()
           if dupImsic then
             fails := fails ++ [⟨"corr", "C04", "missing-panic", s!"{tname} op#{i}: second IMSIC accepted"⟩]
@@ -265,17 +300,20 @@ def checkTbl (case impl : List String) : List Fail := Id.run do
         match built with
         | .ok a =>
           if o.full.isSome ∧ lenOf op.kind a ≠ claimed then
-            fails := fails ++ [⟨"corr", "C02,C05", "claimed-length", s!"{tname} op#{i} {op.kindName}: model len() {lenOf op.kind a}, Length grew by {claimed}"⟩]
+            fails := fails ++ [⟨"corr", "C02", "claimed-length", s!"{tname} op#{i} {op.kindName}: model len() {lenOf op.kind a}, Length grew by {claimed}"⟩]
         | .error _ => pure ()
         if o.full.isSome ∧ claimed ≠ o.raw.length then
           fails := fails ++ [⟨"prop", "C02", "entry-length", s!"{tname} op#{i} {op.kindName}: Length grew by {claimed}, entry serialises to {o.raw.length} bytes"⟩]
         let trueOffset := Tbl.firstOffset cfg + bodyLen
-        match t.add o.raw claimed (sum8 o.raw) with
+        let offAdd := tOff.add [] o.raw.length 0
+        match (match offAdd with | none => none | some _ => t.add o.raw claimed (sum8 o.raw)) with
         | none =>
           fails := fails ++ [⟨"corr", "C05,C18", "missing-panic", s!"{tname} op#{i} {op.kindName}: engine refuses (offset overflow), impl accepts"⟩]
           fails := fails ++ [⟨"prop", "C18", "not-refused", s!"{tname} op#{i}: node offset beyond its field"⟩]
           ended := true
-        | some (hnd, t') =>
+        | some (_, t') =>
+          let hnd := match offAdd with | some (h, _) => h | none => 0
+          tOff := match offAdd with | some (_, x) => { x with body := [] } | none => tOff
           t := { t' with body := [] }     -- the body is kept in `added`; head and checksum do not depend on it
           bodyLen := bodyLen + o.raw.length
           if op.kind = .rdpas then nRdpas := nRdpas + 1
@@ -306,6 +344,7 @@ def checkTbl (case impl : List String) : List Fail := Id.run do
           match o.full with
           | some (h, l, s, b) =>
             fails := fails ++ headFails tname i t.head h cfg.cw cntOff
+            fails := fails ++ headLayoutFails tname i ⟨oid, otab, orev⟩ ctor h (added.size % 2 ^ 32)
             let lf := (readAt h 4 4).getD 0
             prevLenField := lf
             if s ≠ 0 then fails := fails ++ [⟨"prop", "C01", "sum-nonzero", s!"{tname} op#{i} {op.kindName}: image sums to {s}"⟩]
@@ -334,7 +373,12 @@ def checkTbl (case impl : List String) : List Fail := Id.run do
           fails := fails ++ [⟨"prop", "C02", nm, s!"{tname} final image"⟩]
         let addedL := added.toList
         let mimg := ({ t with body := addedL.map (fun e => e.2) } : Tbl).image
-        if img ≠ mimg then fails := fails ++ [⟨"corr", "C01,C02,C03,C04,C05", "final-image", s!"{tname}: model image differs from impl"⟩]
+        if img ≠ mimg then
+          let hl := t.head.length
+          if img.length = mimg.length ∧ img.drop hl = mimg.drop hl then
+            fails := fails ++ (headFails tname 9999 t.head (img.take hl) cfg.cw cntOff)
+          else
+            fails := fails ++ [⟨"corr", "C03", "final-image-body", s!"{tname}: the body of the model image differs from the implementation's"⟩]
         match Spec.tableEntries shape img with
         | .error e => fails := fails ++ [⟨"prop", "C03", if nRdpas > 0 then "walk-with-rdpas" else "walk", s!"{tname}: {e}"⟩]
         | .ok es =>
@@ -360,13 +404,13 @@ def checkEnt (case impl : List String) : List Fail :=
     | none => [⟨"corr", "C04,C11,C12,C14", "parse", "op token"⟩]
     | some op =>
       let built := buildEntry op.kind op.ctor op.opts
-      let optTag := if op.opts.isEmpty then "C04" else if op.kind = .loc then "C04,C11,C12" else "C04,C11"
+      let optTag := if op.opts.isEmpty then "C04" else if op.kind = .loc then "C04,C12" else "C04,C11"
       let wfNote : List Fail := if entryWf op.kind op.ctor op.opts then [] else [⟨"note", "-", "non-wf-case", op.kindName⟩]
       wfNote ++
       match impl with
       | ["panic"] =>
         (match built with
-         | .ok _ => [⟨"corr", optTag ++ ",C18", "unexpected-panic", s!"{op.kindName}: impl panics, model emits"⟩]
+         | .ok _ => [⟨"corr", optTag, "unexpected-panic", s!"{op.kindName}: impl panics, model emits"⟩]
          | .error _ => [])
       | [hx, same, ab, us, sinks] =>
         match hexToBytes hx with
@@ -374,13 +418,14 @@ def checkEnt (case impl : List String) : List Fail :=
         | some raw =>
           (match built with
            | .error e =>
-             [⟨"corr", optTag ++ ",C18", "missing-panic", s!"{op.kindName}: model panics ({e}), impl emits"⟩] ++
+             [⟨"corr", (if e = "refused" then optTag ++ ",C18" else optTag), "missing-panic", s!"{op.kindName}: model panics ({e}), impl emits"⟩] ++
              (if e = "refused" then [⟨"prop", "C18", "not-refused", s!"{op.kindName}: an oversized count/size was serialised"⟩] else [])
            | .ok a =>
              let mraw := entryBytes op.kind a
-             (if mraw ≠ raw then [⟨"corr", optTag, "entry-bytes", s!"{op.kindName}: model {bytesToHex mraw} impl {hx}"⟩] else []) ++
+             let dtag := entryTag op.kind op.opts (firstDiffAt mraw raw)
+             (if mraw ≠ raw then [⟨"corr", dtag, "entry-bytes", s!"{op.kindName}: model {bytesToHex mraw} impl {hx}"⟩] else []) ++
              (match Spec.layoutOracle op.kind op.ctor op.opts raw with
-              | some e => [⟨"prop", optTag, "layout", s!"{op.kindName}: {e}"⟩]
+              | some e => [⟨"prop", dtag, "layout", s!"{op.kindName}: {e}"⟩]
               | none => [])) ++
           (if same ≠ "same" then [⟨"prop", "C14", "nondeterministic", op.kindName⟩] else []) ++
           (if ab ≠ "~" ∧ ab ≠ hx then [⟨"prop", "C14", "raw-form-differs", s!"{op.kindName}: as_bytes {ab} serialised {hx}"⟩] else []) ++
